@@ -512,6 +512,7 @@ def C16(rep, prog, tier):
     for cls in (preocf.ZP, preocf.PO):
         _run(rep, preocf.zrank_recursion, ex, cls)
     _run(rep, preocf.rank_cache, ex, preocf.ZP, "z_part2ocf")
+    _run(rep, preocf.all_ranks, ex)
     _run(rep, preocf.zrank_init, ex)
     _run(rep, preocf.fact_builder_sibling, ex)
     # acceptance of a conditional by the ranking object goes through formula ranks
@@ -533,6 +534,7 @@ def C17(rep, prog, tier):
     for cls in (preocf.CR, preocf.PO):
         _run(rep, preocf.crep_rank, ex, cls)
     _run(rep, preocf.rank_cache, ex, preocf.CR, "c_vec2ocf", rule="CREP.cache")
+    _run(rep, preocf.all_ranks, ex)
     _run(rep, preocf.crep_init, ex)
     _run(rep, crev.solve, ex)
     _run(rep, crev.front_enumeration, ex)
